@@ -88,6 +88,13 @@ func (e *Exec) scenarioShape(path string, t types.Type, a string) ([]altFn, bool
 		return one(func(s *State) Val {
 			declT := w.namedType("pkg/codegen", "TypeDecl")
 			fields := map[string]Val{"Name": lit(args[0])}
+			if args[1] == "map" { // a bare map declaration (`type T map[string]string`), as for a map alternative of an anyOf
+				mT := w.namedType("pkg/codegen", "MapType")
+				pT := w.namedType("pkg/codegen", "PrimitiveType")
+				prim := Iface{Dyn: pT, V: mkStruct(pT, map[string]Val{"Type": lit("string")})}
+				fields["Type"] = Iface{Dyn: mT, V: mkStruct(mT, map[string]Val{"KeyType": prim, "ValueType": prim})}
+				return mkStruct(declT, fields)
+			}
 			if args[1] != "none" {
 				stT := w.namedType("pkg/codegen", "StructType")
 				sfT := w.namedType("pkg/codegen", "StructField")
@@ -344,6 +351,23 @@ func (e *Exec) scenarioShape(path string, t types.Type, a string) ([]altFn, bool
 			r := s.alloc(&Agg{Elems: els})
 			delete(s.Fresh, r.Cell)
 			return SliceV{Arr: r, Len_: len(els), Cap: len(els)}
+		}, a)
+	case "scenarioloader": // a schemas.Loader that fails or returns a new, empty document; its calls are recorded
+		return one(func(s *State) Val {
+			if _, ok := s.Ghost["scenario:other-schema"].(Ref); !ok {
+				schT := w.namedType("pkg/schemas", "Schema")
+				osr := s.alloc(zeroVal(schT))
+				delete(s.Fresh, osr.Cell)
+				s.CellTypes[osr.Cell] = schT
+				s.Ghost["scenario:other-schema"] = osr
+			}
+			return Iface{Dyn: absLoaderType, V: Opaque{Tag: "scenario-loader"}}
+		}, a)
+	case "emptymap": // a non-nil map without entries
+		return one(func(s *State) Val {
+			mc := s.alloc(&MapAgg{Tag: path})
+			delete(s.Fresh, mc.Cell)
+			return MapV{Cell: mc.Cell}
 		}, a)
 	case "imports": // imports(path:name;path:name): a []codegen.Import
 		return one(func(s *State) Val {
@@ -650,6 +674,8 @@ func (e *Exec) abstractInvoke(s *State, c *ssa.Call, recv Iface, args []Val) ([]
 			return nil, false
 		}
 		s.Ghost["callarg:Loader.Load"] = Tuple(append([]Val{recv}, args...))
+		prevLoads, _ := s.Ghost["callargs:Loader.Load"].(Tuple)
+		s.Ghost["callargs:Loader.Load"] = append(append(Tuple{}, prevLoads...), Tuple(append([]Val{recv}, args...)))
 		other, _ := s.Ghost["scenario:other-schema"].(Ref)
 		s2 := s.clone()
 		s.Ghost["callret:Loader.Load"] = Tuple{other, Iface{}}
